@@ -64,7 +64,6 @@ def cells(tier):
              ("c3", {"kind": "const", "value": 3}), ("l10", {"kind": "linear", "slope": 1, "intercept": 0}),
              ("l21", {"kind": "linear", "slope": 2, "intercept": 1}), ("l13", {"kind": "linear", "slope": 1, "intercept": 3}),
              ("l30", {"kind": "linear", "slope": 3, "intercept": 0}),
-             ("g21", {"kind": "general", "as": {"kind": "linear", "slope": 2, "intercept": 1}}),
              ("p100", {"kind": "poly", "coefficients": [1, 0, 0]}), ("p123", {"kind": "poly", "coefficients": [1, 2, 3]})]
     for ctag, cost in costs:
         for tag, tasks in (("f", [fam.fx("t0", 3)]), ("v", [fam.vr("t0", 1, 3)]),
@@ -152,6 +151,18 @@ def cells(tier):
         {"id": "i", "kind": "FromExpr", "name": "gap", "expr": ["-", ["start", "t1"], ["end", "t0"]]}],
         constraints=[{"id": "c", "kind": "IndicatorBounds", "indicator": "i", "lower": 1},
                      {"id": "d", "kind": "IndicatorTarget", "indicator": "i", "value": 2, "optional": True}]), 6))
+    # bounds and targets equal to ZERO (and a negative one), on indicators that can go to either side of it
+    gap = {"id": "i", "kind": "FromExpr", "name": "gap", "expr": ["-", ["start", "t1"], ["end", "t0"]]}
+    for nm, cons in (("upper0", {"kind": "IndicatorBounds", "upper": 0}), ("lower0", {"kind": "IndicatorBounds", "lower": 0}),
+                     ("both0", {"kind": "IndicatorBounds", "lower": 0, "upper": 0}),
+                     ("lower_neg", {"kind": "IndicatorBounds", "lower": -1, "upper": 1}),
+                     ("target0", {"kind": "IndicatorTarget", "value": 0})):
+        out.append((f"IndicatorZero.expr.{nm}", fam.base(6, [fam.fx("t0", 2), fam.fx("t1", 1)], indicators=[dict(gap)],
+                                                         constraints=[dict({"id": "c", "indicator": "i"}, **cons)]), 6))
+    for nm, cons in (("upper0", {"kind": "IndicatorBounds", "upper": 0}), ("target0", {"kind": "IndicatorTarget", "value": 0})):
+        out.append((f"IndicatorZero.tardiness.{nm}", fam.base(
+            6, [fam.fx("t0", 2, due_date=3, due_date_is_deadline=False), fam.fx("t1", 1, due_date=2, due_date_is_deadline=False)],
+            indicators=[{"id": "i", "kind": "Tardiness"}], constraints=[dict({"id": "c", "indicator": "i"}, **cons)]), 6))
     return out
 
 
